@@ -36,11 +36,17 @@ Inductive tree := T (pos : N) (hit : bool) (kids : list tree).
 
 Record link := { l_id : N; l_pos : N; l_init : bool; l_assert : option (shape * shape) }.
 
+(* One item per node the walker hands to a visitor, in ast.Inspect (pre-order) order; the converter
+   harness/internal/absconv produces these from real files (facts read from go/ast + go/types). *)
 Inductive stmt :=
-| SIfChain (links : list link) (else_block : bool)      (* if / else-if ... [else {}]; every link is an *ast.IfStmt *)
-| SSwitch (pos : N) (cases : list (N * shape))          (* case expressions in clause order *)
-| STypeSwitch (pos : N) (guarded : bool) (hits : list bool)
-| SLit (pos : N) (keys : list (N * shape))              (* map literal keys *)
+| SIfChain (links : list link) (else_block : bool)      (* the *ast.IfStmt visited NOW (head of [links]) followed by its else-if links;
+                                                           else_block: the last link ends in `else { }` *)
+| SSwitch (pos : N) (cases : list (N * shape))          (* switch: case expressions in clause order; select: the Comm statements *)
+| STypeSwitch (pos : N) (guarded : bool) (hits : list bool)  (* guarded: `switch v := x.(type)` or no object for x; hits: per clause,
+                                                           "single-type clause whose body asserts x.(T) on the same object" *)
+| SLit (pos : N) (ws : option N) (keys : list (N * shape))   (* string-keyed map literal with >= 2 elements: position of the one
+                                                           suspicious-whitespace key (checkWhitespace), and the keys checkDuplicates
+                                                           inserts (non-literal, side-effect free) *)
 | SExpr (t : tree).
 
 Record comment := { c_pos : N; c_code : bool; c_output : bool }.
@@ -48,7 +54,7 @@ Record comment := { c_pos : N; c_code : bool; c_output : bool }.
 Inductive decl :=
 | DFunc (pos : N) (is_example : bool) (recv : option string) (body : option (list stmt)) (comments : list comment)
 | DType (pos : N) (names : list string)
-| DOther (pos : N).
+| DOther (pos : N) (items : list stmt).      (* any other GenDecl; [items]: what an expression walker meets inside it *)
 
 Definition file := list decl.
 
@@ -63,7 +69,7 @@ Definition shift_stmt (k : N) (s : stmt) : stmt :=
   | SIfChain ls e => SIfChain (map (shift_link k) ls) e
   | SSwitch p cs => SSwitch (p + k) (map (shift_pk k) cs)
   | STypeSwitch p g hs => STypeSwitch (p + k) g hs
-  | SLit p ks => SLit (p + k) (map (shift_pk k) ks)
+  | SLit p ws ks => SLit (p + k) (option_map (fun w => w + k)%N ws) (map (shift_pk k) ks)
   | SExpr t => SExpr (shift_tree k t)
   end.
 Definition shift_comment (k : N) (c : comment) : comment :=
@@ -72,7 +78,7 @@ Definition shift_decl (k : N) (d : decl) : decl :=
   match d with
   | DFunc p ex r b cs => DFunc (p + k) ex r (option_map (map (shift_stmt k)) b) (map (shift_comment k) cs)
   | DType p ns => DType (p + k) ns
-  | DOther p => DOther (p + k)
+  | DOther p b => DOther (p + k) (map (shift_stmt k) b)
   end.
 
 (* statement-level visitors: the stmtWalker calls EnterFunc, then VisitStmt for every statement (pre-order) *)
@@ -90,4 +96,73 @@ Section StmtVisitor.
     | DFunc _ _ _ (Some b) _ => visit_all (enter_func s) b      (* EnterFunc returns false for body-less functions *)
     | _ => (s, [])
     end.
+  (* the exprWalker also inspects every non-function declaration (package-level var/const initialisers) *)
+  Definition expr_on_decl (s : S) (d : decl) : S * list warning :=
+    match d with
+    | DFunc _ _ _ (Some b) _ => visit_all (enter_func s) b
+    | DOther _ b => visit_all s b
+    | _ => (s, [])
+    end.
 End StmtVisitor.
+
+(* ---- decidable equality on the abstract syntax produced by the converter (SExpr trees are never produced: unequal) ---- *)
+Definition opt_eqb {A} (e : A -> A -> bool) (a b : option A) : bool :=
+  match a, b with Some x, Some y => e x y | None, None => true | _, _ => false end.
+Definition pk_eqb (a b : N * shape) : bool := N.eqb (fst a) (fst b) && N.eqb (snd a) (snd b).
+Definition link_eqb (a b : link) : bool :=
+  N.eqb (l_id a) (l_id b) && N.eqb (l_pos a) (l_pos b) && Bool.eqb (l_init a) (l_init b) && opt_eqb pk_eqb (l_assert a) (l_assert b).
+Definition stmt_eqb (a b : stmt) : bool :=
+  match a, b with
+  | SIfChain l e, SIfChain l' e' => list_eqb link_eqb l l' && Bool.eqb e e'
+  | SSwitch p c, SSwitch p' c' => N.eqb p p' && list_eqb pk_eqb c c'
+  | STypeSwitch p g h, STypeSwitch p' g' h' => N.eqb p p' && Bool.eqb g g' && list_eqb Bool.eqb h h'
+  | SLit p w ks, SLit p' w' ks' => N.eqb p p' && opt_eqb N.eqb w w' && list_eqb pk_eqb ks ks'
+  | _, _ => false
+  end.
+Definition comment_eqb (a b : comment) : bool :=
+  N.eqb (c_pos a) (c_pos b) && Bool.eqb (c_code a) (c_code b) && Bool.eqb (c_output a) (c_output b).
+Definition decl_eqb (a b : decl) : bool :=
+  match a, b with
+  | DFunc p ex r bd cs, DFunc p' ex' r' bd' cs' =>
+      N.eqb p p' && Bool.eqb ex ex' && opt_eqb String.eqb r r' && opt_eqb (list_eqb stmt_eqb) bd bd' && list_eqb comment_eqb cs cs'
+  | DType p ns, DType p' ns' => N.eqb p p' && list_eqb String.eqb ns ns'
+  | DOther p b, DOther p' b' => N.eqb p p' && list_eqb stmt_eqb b b'
+  | _, _ => false
+  end.
+Definition decl_pos (d : decl) : N := match d with DFunc p _ _ _ _ => p | DType p _ => p | DOther p _ => p end.
+
+(* ---- the laws, evaluated: what they predict for a TRANSFORMED file from per-declaration runs on the ORIGINAL file.
+   tags: for every declaration of the transformed file, None = padding inserted by the transformation,
+   Some i = "this is the i-th (binary N: unary indices made the evaluation quadratic in practice) original declaration, moved by some offset" (the claim is CHECKED with decl_eqb). ---- *)
+Definition unshift_w (k : N) (w : warning) : warning := ((fst w - k)%N, snd w).
+Section LawEval.
+  Context {S : Type}.
+  Variable on_decl : S -> decl -> S * list warning.
+  Variable s0 : S.
+  Definition predict_one (ds : file) (d' : decl) (tag : option N) : option (list warning) :=
+    match tag with
+    | None => Some (snd (on_decl s0 d'))
+    | Some i =>
+        match nth_error ds (N.to_nat i) with
+        | None => None
+        | Some d =>
+            if (decl_pos d <=? decl_pos d')%N then
+              let k := (decl_pos d' - decl_pos d)%N in
+              if decl_eqb (shift_decl k d) d' then Some (map (shift_w k) (snd (on_decl s0 d))) else None
+            else
+              let k := (decl_pos d - decl_pos d')%N in
+              if decl_eqb (shift_decl k d') d then Some (map (unshift_w k) (snd (on_decl s0 d))) else None
+        end
+    end.
+  Fixpoint predict (ds ds' : file) (tags : list (option N)) : option (list warning) :=
+    match ds', tags with
+    | [], [] => Some []
+    | d' :: r', t :: rt =>
+        match predict_one ds d' t, predict ds r' rt with Some a, Some b => Some (a ++ b)%list | _, _ => None end
+    | _, _ => None
+    end.
+End LawEval.
+(* nothing of the original is lost: every original index occurs exactly once among the tags *)
+Definition tags_cover (n : nat) (tags : list (option N)) : bool :=
+  forallb (fun i => let i := N.of_nat i in
+                    Nat.eqb (length (filter (fun t => match t with Some j => N.eqb i j | None => false end) tags)) 1) (seq 0 n).
